@@ -30,7 +30,7 @@ TIERS = {
     "quick": {"runs": 6000, "chunk": 100, "selftest": 64, "minimise_s": 30},
     "thorough": {"budget_s": 600, "chunk": 400, "selftest": 512, "minimise_s": 90},
 }
-PROBES = ["union_of_containers", "dependency_on_excluded_field", "fixed_tuple_offending", "set_with_fault", "dict_key_fault", "required_field_excluded", "typed_addition_fault", "varargs_fault",
+PROBES = ["contains_constraint", "union_of_containers", "dependency_on_excluded_field", "fixed_tuple_offending", "set_with_fault", "dict_key_fault", "required_field_excluded", "typed_addition_fault", "varargs_fault",
           "rule_leaf_fault", "length_bound_after_exclusion", "mode_required_field", "dependency_missing_for_kept_field", "excluded_field_with_dependency",
           "data_class_elements", "property_output_offending"]
 POL = ["throw", "exclude", "preserve"]
@@ -59,12 +59,30 @@ def generate(rng, tier):
         return ["opt", t_] if rng.random() < 0.25 else t_
     if kind == "rule":
         t = maybe_opt(tdsl.gen_container(rng, rng.choice([1, 1, 1, 2, 2, 3]), rule_leaves=RL, dc_items=True))
-        if rng.random() < 0.12:
+        if rng.random() < 0.06:
+            # a list constrained by contains=List[leaf]: whether an item counts is tested on the item as it is, whatever
+            # the policies say (the items themselves are not converted by 'contains')
+            s1 = rng.choice(["leaf", "leaf2", "rleaf"])
+            items = []
+            for i in range(rng.choice([1, 2, 3])):
+                sub = []
+                for j in range(rng.choice([1, 2])):
+                    pid = pool.next()
+                    positions.append(([i, j], tdsl.RULE_ORIGIN.get(s1, s1), pid))
+                    sub.append({"$r": pid})
+                items.append(sub)
+            plan["type"] = ["contains", ["list", [s1]]]
+            plan["input"] = items
+            plan["max_contains"] = rng.choice([None, None, 1])
+        elif rng.random() < 0.12:
             # a union of two containers over different leaf kinds: which alternative fits must not depend on the policies.
             # (no_data_loss=True: the library then has only its strict trial pass before the pass that obeys the policies)
             s1, s2 = rng.sample(["leaf", "leaf2", "rleaf"], 2)
             cont = rng.choice(["list", "tup"])
             t = [rng.choice(["union", "union", "xor"]), [cont, [s1]], [cont, [s2]]]
+            if rng.random() < 0.4:
+                # the second alternative can never take this input: only the first one is in question
+                t[2] = ["dict", ["keyleaf"], [s2]]
             items = []
             for i in range(rng.choice([1, 2, 2, 3])):
                 pid = pool.next()
@@ -101,7 +119,8 @@ def generate(rng, tier):
                 f = {"name": "f%d" % i, "type": ["disc"], "required": False, "default": rng.choice(["absent", "none"]),
                      "on_error": rng.choice([None, None, "exclude", "preserve", "throw"])}
                 fields.append(f)
-                inp[f["name"]] = rng.choice([{"kind": "a", "n": 1}, {"kind": "b", "m": "2"}, {"kind": "zz"}, 5, {"kind": "a", "n": "x"}, [1, 2]])
+                inp[f["name"]] = rng.choice([{"kind": "a", "n": 1}, {"kind": "b", "m": "2"}, {"kind": "zz"}, 5, {"kind": "a", "n": "x"}, [1, 2],
+                                             '{"kind": "a", "n": "x"}', '{"kind": "a", "n": 2}', [["kind", "b"], ["m", "x"]]])
                 continue
             t = tdsl.gen_scalar(rng, rule_leaves=RL) if rng.random() < 0.55 else maybe_opt(tdsl.gen_container(rng, rng.choice([1, 1, 2]), rule_leaves=RL, dc_items=True))
             required = rng.random() < 0.5
@@ -195,7 +214,14 @@ def build(plan, strict=False):
     from utype import Schema, DataClass, Field
     kind = plan["kind"]
     if kind == "rule":
-        T = tdsl.rule_type(plan["type"])
+        if plan["type"][0] == "contains":
+            from utype import Rule
+            cons = {"contains": tdsl.rule_type(plan["type"][1])}
+            if plan.get("max_contains"):
+                cons["max_contains"] = plan["max_contains"]
+            T = Rule.annotate(list, constraints=cons)
+        else:
+            T = tdsl.rule_type(plan["type"])
         if plan.get("max_len"):
             from utype import Rule
             T = Rule.parse_annotation(annotation=tdsl.build_type(plan["type"]), constraints={"max_length": plan["max_len"]})
@@ -352,7 +378,13 @@ def ref(t, v, pol):
         # exactly one alternative fits as it is: that one, whatever the policies; otherwise not judged
         strict = {"invalid_items": "throw", "invalid_keys": "throw", "invalid_values": "throw"}
         fits = [r for r in (ref(b, v, strict) for b in t[1:]) if r is not FAIL]
-        return fits[0] if len(fits) == 1 else SKIP
+        if len(fits) == 1:
+            return fits[0]
+        if fits:
+            return SKIP
+        # no alternative fits as it is: like a union, the one that fits under the policies (if it is the only one)
+        fits = [r for r in (ref(b, v, pol) for b in t[1:]) if r is not FAIL]
+        return fits[0] if len(fits) == 1 else (FAIL if not fits else SKIP)
     if k == "union":
         # the first alternative that fits as it is (no element offending) wins; only when none does, the policies apply
         strict = {"invalid_items": "throw", "invalid_keys": "throw", "invalid_values": "throw"}
@@ -382,6 +414,8 @@ def ref(t, v, pol):
             out.append(r)
         return {"list": list, "set": set, "fset": frozenset, "tup": tuple}[k](out)
     if k == "dict":
+        if not isinstance(v, dict):
+            return FAIL     # (a sequence of payloads is no mapping)
         out = {}
         for kk, vv in v.items():
             rk = ref(t[1], kk, pol)
@@ -409,6 +443,13 @@ def ref(t, v, pol):
 
 def ref_plan(plan, value, pol, stats):
     kind = plan["kind"]
+    if kind == "rule" and plan["type"][0] == "contains":
+        strict = {"invalid_items": "throw", "invalid_keys": "throw", "invalid_values": "throw"}
+        n = sum(1 for item in value if ref(plan["type"][1], item, strict) is not FAIL)
+        stats["probe:contains_constraint"] += 1
+        if n < 1 or (plan.get("max_contains") and n > plan["max_contains"]):
+            return FAIL
+        return list(value)
     if kind == "rule" and plan["type"][0] == "ftup":
         types = plan["type"][1:]
         if len(value) < len(types):
